@@ -147,6 +147,28 @@ Theorem C07_reload_equiv_without_roots_refuted :
 Proof. exact reload_without_root_refuted. Qed.
 Print Assumptions C07_reload_equiv_without_roots_refuted.
 
+(* ---- file store (content/file.Store.Push = store the bytes, index, restore duplicated
+   names; the first and the last step can fail or refuse, as the environment decides) ----
+   After every history of pushes with any outcomes, Predecessors(n) is exactly the stored
+   nodes referencing n -- for the order "index before restore" as re-read from file.go
+   ([file_index_first] from Generated.GC07.calls_filePush). *)
+Theorem C07_file_history_exact_src :
+  forall (content : node -> list node) (ops : list fop) (n : node),
+    let s := frun file_index_first content ops in
+    NoDup (predecessors (f_graph s) n) /\
+    forall p, In p (predecessors (f_graph s) n) <-> In p (f_blobs s) /\ In n (content p).
+Proof. exact file_history_exact_src. Qed.
+Print Assumptions C07_file_history_exact_src.
+
+(* with the restore step before the index step (the code before the fix) a manifest whose
+   duplicate cannot be restored is stored and never indexed (audit finding F1) *)
+Theorem C07_file_restore_first_refuted :
+  exists content ops n p,
+    let s := frun false content ops in
+    In p (f_blobs s) /\ In n (content p) /\ ~ In p (predecessors (f_graph s) n).
+Proof. exact file_restore_first_refuted. Qed.
+Print Assumptions C07_file_restore_first_refuted.
+
 (* ---- OCI store level (Model/GraphStore.v: blobs on disk, the root list of
    index.json, graph.Memory) ----
    After every history of Push / Tag / Delete (a Delete with AutoGC is a sequence of
